@@ -292,3 +292,36 @@ Definition p_odd (v : Qc) : bool := is_int v && Z.odd (numz v).
 Definition p_gt (c : Qc) (v : Qc) : bool := negb (Vleb v c).
 Definition expand_tbl (tbl : list (Qc * expansion (T:=Qc))) (v : Qc) : expansion (T:=Qc) :=
   match find (fun e => Veqb (fst e) v) tbl with Some e => snd e | None => EKeep end.
+
+(* ---- C12: roll records ---- *)
+From Dyce Require Export Model.RollRecord.
+Definition path_eqb : list nat -> list nat -> bool := list_eqb Nat.eqb.
+Fixpoint otree_eqb (a b : otree (T:=Qc)) : bool :=
+  match a, b with
+  | ONode v1 o1 s1, ONode v2 o2 s2 =>
+      opt_eqb Veqb v1 v2 && opt_eqb path_eqb o1 o2 &&
+      (fix go (x y : list (otree (T:=Qc))) : bool :=
+         match x, y with
+         | [], [] => true
+         | p :: x', q :: y' => otree_eqb p q && go x' y'
+         | _, _ => false
+         end) s1 s2
+  end.
+Fixpoint rolltree_eqb (a b : rolltree (T:=Qc)) : bool :=
+  match a, b with
+  | RNode p1 o1 s1, RNode p2 o2 s2 =>
+      path_eqb p1 p2 && list_eqb otree_eqb o1 o2 &&
+      (fix go (x y : list (rolltree (T:=Qc))) : bool :=
+         match x, y with
+         | [], [] => true
+         | p :: x', q :: y' => rolltree_eqb p q && go x' y'
+         | _, _ => false
+         end) s1 s2
+  end.
+Definition chk_record (r : rtreeQ) (script : list nat) (expected : res (rolltree (T:=Qc))) : bool :=
+  let '(_, res) := run (roll_m VO Vzero Vadd [] r (heap0 (T:=Qc))) script in
+  match res, expected with
+  | Some (Ok (hp, rid)), Ok e => rolltree_eqb (r_tree 40 hp rid) e
+  | Some (Err e1), Err e2 => exn_eqb e1 e2
+  | _, _ => false
+  end.
